@@ -1,7 +1,7 @@
 (* C14 support, part 6 (clauses (a1) existence, (b), (b')): the tracker/model relation [R3] about
    abandoned requests, dial stages and tokens, carried through the primitives. *)
 From HD Require Import common.Base http.Model pool.Model pool.Spec pool.Frames pool.ProofsLite
-  pool.BaseC14 pool.FramesC14 pool.TokC14 pool.DialC14 pool.BgC14.
+  pool.BaseC14 pool.FramesC14 pool.TokC14 pool.DialC14 pool.BgC14 pool.OblC14.
 Local Open Scope list_scope.
 
 (* ------------------------------------------------------------------ the tracker view *)
@@ -394,8 +394,8 @@ Proof.
   intros H Hg. destruct (ev_dl (ERes r x)) as [[r0 v]|] eqn:Ed.
   - eapply G3_step; [exact H|reflexivity|reflexivity|]. apply R3_emit.
     assert (Er : r0 = r /\ v = DsOver) by (destruct x as [|[]]; cbn in Ed; inversion Ed; auto). destruct Er; subst r0 v.
-    apply (R3_ev_dl pre _ s (ERes r x) r DsOver); auto; [intros []| |apply H].
-    intros Hc q d Hq Hd _. assert (Es : d_stage d = DGone) by (apply (Hg Hc); [rewrite Ed; discriminate|exact Hd]).
+    apply (R3_ev_dl pre _ s (ERes r x) r DsOver); [intros []|exact Ed|intros; discriminate| |apply H].
+    intros Hc q d Hq Hd _. assert (Es : d_stage d = DGone) by (apply (Hg Hc); [discriminate|exact Hd]).
     unfold direl. rewrite Es. repeat split; intros; discriminate.
   - apply G3_emit_quiet; [intros []|exact Ed|reflexivity|exact H].
 Qed.
@@ -414,7 +414,8 @@ Proof.
     eapply R3_out; [| | | | |apply (R3_edial pre _ s rid (d_key d) d (Some by_) HR Ed Es)]; reflexivity.
   - eapply G3_same; [exact H|reflexivity|]. apply R3_upd_dial_stage; [reflexivity|exact HR].
   - eapply G3_step; [exact H|reflexivity|apply (Hnew d a eq_refl Es)|].
-    eapply R3_out; [| | | | |apply (R3_enew pre _ s rid _ _ _ HR)]; reflexivity.
+    apply (R3_out pre _ (upd_dial rid (d_set_stage DGone) (set_conns (conns s ++ [mkConn rid (new_share d a) true true 1 0 []]) s))); try reflexivity.
+    apply R3_enew. exact HR.
   - eapply G3_same; [exact H|reflexivity|]. apply R3_upd_dial; [exact HR|].
     intros _ q d' _ Hd' (_ & _ & D3 & D4). rewrite Ed in Hd'. inversion Hd'; subst d'.
     unfold direl. cbn. repeat split; try (intros; discriminate).
@@ -425,6 +426,969 @@ Proof.
     unfold direl. cbn. repeat split; try (intros; discriminate).
     + intros A B. specialize (D3 A B). congruence.
     + intros A B. destruct (D4 A B) as [a' Ha]. congruence.
+Qed.
+
+
+(* ------------------------------------------------------------------ dropping a checkout *)
+Lemma direl_gone_from_new dl rs d d' : d_stage d = DNew -> d_stage d' = DGone -> direl dl rs d -> direl dl rs d'.
+Proof.
+  intros E E' (D1 & _). destruct (D1 E) as [-> ->]. unfold direl. rewrite E'. repeat split; intros; discriminate.
+Qed.
+
+Lemma G3_checkout_drop obl pre m0 rid ck s : G3 obl pre m0 s -> kin cfg ck ->
+  (k_inner ck = IDelayDrop -> tokof (cur m0 s) rid (k_token ck)) -> G3 obl pre m0 (checkout_drop cfg rid ck s).
+Proof.
+  intros H (K1 & K2 & K3) Htk. unfold checkout_drop.
+  set (s1 := match k_conn ck with
+             | Some c => if is_open s c && (g_pool cfg && negb (k_token ck =? 0)) then pool_push (g_max_idle cfg) (k_token ck) c s else drop_conn c s
+             | None => s end).
+  assert (F1 : mdf s s1 /\ pf s s1).
+  { subst s1. destruct (k_conn ck) as [c|]; [|split; [apply mdf_refl|apply pf_refl]].
+    destruct (is_open s c && (g_pool cfg && negb (k_token ck =? 0))); split;
+      auto using mdf_pool_push, pf_pool_push, mdf_drop_conn, pf_drop_conn. }
+  destruct F1 as [F1 P1]. assert (H1 : G3 obl pre m0 s1) by (eapply G3_mp; eauto).
+  assert (Htk1 : k_inner ck = IDelayDrop -> tokof (cur m0 s1) rid (k_token ck)).
+  { intros E. eapply tokof_ext; [apply ext_pf; exact P1|auto]. }
+  set (started := match get_dial s1 rid with Some d => match d_stage d with DNew => false | _ => true end | None => false end).
+  set (delayed := match k_inner ck with IDelayDrop => started | _ => false end).
+  set (s2 := if delayed then spawn (TDelayed rid (k_token ck) (k_owner ck)) s1
+             else if g_pool cfg && negb (k_token ck =? 0) && k_owner ck then pool_cancel (k_token ck) rid s1 else s1).
+  assert (H2 : G3 obl pre m0 s2 /\ dials s2 = dials s1).
+  { subst s2. destruct delayed eqn:Ed.
+    - assert (Ei : k_inner ck = IDelayDrop) by (subst delayed; destruct (k_inner ck); try discriminate; reflexivity).
+      split; [|reflexivity]. eapply G3_same; [exact H1|reflexivity|]. apply R3_spawn_delayed; [apply H1|auto].
+    - destruct (g_pool cfg && negb (k_token ck =? 0) && k_owner ck); [|split; [exact H1|reflexivity]].
+      split; [eapply G3_mp; [exact H1|apply mdf_pool_cancel|apply pf_pool_cancel]|apply (pf_dials _ _ (pf_pool_cancel _ _ _))]. }
+  destruct H2 as [H2 Hd2].
+  pose proof (mdf_rx_drop ck s2) as F3. pose proof (pf_rx_drop ck s2) as P3. destruct (rx_drop ck s2) as [ck' s3]. cbn [snd] in F3, P3.
+  assert (H3 : G3 obl pre m0 s3) by (eapply G3_mp; eauto).
+  assert (Hd3 : get_dial s3 rid = get_dial s1 rid) by (unfold get_dial; rewrite (pf_dials _ _ P3), Hd2; reflexivity).
+  assert (Hgone : delayed = false -> (contp cfg = true -> k_inner ck = IDelayDrop) ->
+                  G3 obl pre m0 (upd_dial rid (d_set_stage DGone) s3)).
+  { intros Ed Hk. eapply G3_same; [exact H3|reflexivity|]. apply R3_upd_dial; [apply H3|].
+    intros Hc q d _ Hd. rewrite Hd3 in Hd. specialize (Hk Hc).
+    assert (Es : d_stage d = DNew).
+    { subst delayed started. rewrite Hk, Hd in Ed. destruct (d_stage d); try discriminate; reflexivity. }
+    apply direl_gone_from_new; [exact Es|reflexivity]. }
+  destruct (k_inner ck) eqn:Ei; try exact H3.
+  - apply Hgone; [reflexivity|]. intros Hc. rewrite (K2 eq_refl) in Hc. discriminate.
+  - destruct delayed eqn:Ed; [exact H3|]. apply Hgone; [reflexivity|auto].
+  - exfalso. apply K1. reflexivity.
+Qed.
+
+
+(* ------------------------------------------------------------------ polling a checkout *)
+Lemma connector_poll_reqs rid b s : reqs (snd (connector_poll rid b s)) = reqs s.
+Proof. unfold connector_poll. dm; reflexivity. Qed.
+Lemma connector_poll_ready rid b s res d' : fst (connector_poll rid b s) = CReady res ->
+  get_dial (snd (connector_poll rid b s)) rid = Some d' -> d_stage d' = DGone.
+Proof.
+  unfold connector_poll. destruct (get_dial s rid) as [d|] eqn:Ed; cbn [fst snd]; [|discriminate].
+  destruct (d_stage d) as [| |[a| |]|]; cbn [fst snd]; try discriminate; intros _ Hd;
+    match type of Hd with get_dial (upd_dial rid ?f ?s0) rid = _ =>
+      rewrite (get_dial_upd_same s0 rid f d Ed) in Hd end; inversion Hd; reflexivity.
+Qed.
+Lemma ext_connector_poll rid b s : ext s (snd (connector_poll rid b s)).
+Proof.
+  unfold connector_poll. destruct (get_dial s rid) as [d|]; [|apply ext_refl].
+  destruct (d_stage d) as [| |[a| |]|]; cbn [snd]; try apply ext_refl; try (apply ext_same; reflexivity).
+  - eexists [_]. reflexivity.
+  - eexists [_]. reflexivity.
+Qed.
+
+Definition same_ck (s : state) (rid : nat) (ck : checkout) : Prop :=
+  exists ck0, get_req s rid = Some (RCheckout ck0) /\ k_inner ck0 = k_inner ck /\ k_token ck0 = k_token ck.
+
+Lemma same_ck_mdf s s' rid ck : mdf s s' -> same_ck s rid ck -> same_ck s' rid ck.
+Proof.
+  intros F (ck0 & H0 & Hi & Ht). pose proof (mf_req _ _ F rid) as Hr. rewrite H0 in Hr. destruct Hr as (ck' & Hq & Hi' & Ht').
+  exists ck'. split; [exact Hq|]. split; congruence.
+Qed.
+Lemma same_ck_isck s rid ck : same_ck s rid ck -> isck s rid.
+Proof. intros (ck0 & H0 & _). exists ck0. exact H0. Qed.
+Lemma same_ck_set s rid ck q : get_req s rid = Some q -> same_ck (set_req rid (RCheckout ck) s) rid ck.
+Proof. intros H. exists ck. split; [eapply isck_set_req_same; eauto|auto]. Qed.
+Lemma same_ck_tokof pre m s rid ck : R3 pre m s -> same_ck s rid ck -> k_inner ck = IDelayDrop -> tokof m rid (k_token ck).
+Proof. intros HR (ck0 & H0 & Hi & Ht) E. rewrite <- Ht. apply (r3_ck _ _ _ HR rid ck0 H0). congruence. Qed.
+
+(* a request that is still a checkout is not abandoned: its own ENew is accepted *)
+Lemma cT_own_new obl pre m s rid c sh d : R3 pre m s -> isck s rid -> get_dial s rid = Some d -> cT obl m (ENew c sh rid) = true.
+Proof.
+  intros HR Hc Hd. cbn [cT]. pose proof (r3_nr _ _ _ HR) as Hn. unfold RV in Hn. rewrite map_length in Hn.
+  apply nth_error_lt in Hd. destruct (nth_error (m_reqs m) rid) as [y|] eqn:Ey; [|apply nth_error_None in Ey; lia].
+  destruct (ri_aband y) eqn:Ea; [|reflexivity]. exfalso.
+  apply (r3_ab _ _ _ HR rid (rv3 y)); [unfold RV; rewrite nth_error_map', Ey; reflexivity|exact Ea|exact Hc].
+Qed.
+
+Definition ckp3 obl pre m0 (rid : nat) (s : state) (rs : kpoll * checkout * state) : Prop :=
+  G3 obl pre m0 (snd rs) /\ same_ck (snd rs) rid (snd (fst rs)) /\ ext s (snd rs)
+  /\ (forall e, fst (fst rs) = KReady (inr e) -> e = EUnavail \/ forall d, get_dial (snd rs) rid = Some d -> d_stage d = DGone).
+
+
+Lemma G3_checkout_poll obl pre m0 rid ck s : G3 obl pre m0 s -> same_ck s rid ck ->
+  ckp3 obl pre m0 rid s (checkout_poll cfg rid ck s).
+Proof.
+  intros H Hsc. unfold checkout_poll, ckp3.
+  destruct (waiter_poll_same ck) as (W1 & W2 & W3 & W4). destruct (waiter_poll ck) as [w ck1]. cbn [snd] in W1, W2, W3, W4.
+  assert (Hsc1 : same_ck s rid ck1) by (destruct Hsc as (ck0 & A & B & C); exists ck0; split; [exact A|split; congruence]).
+  pose proof (same_ck_isck _ _ _ Hsc) as Hck.
+  assert (Hbase : forall kp, (forall e, kp = KReady (inr e) -> e = EUnavail) ->
+            G3 obl pre m0 s /\ same_ck s rid ck1 /\ ext s s /\
+            (forall e, kp = KReady (inr e) -> e = EUnavail \/ forall d, get_dial s rid = Some d -> d_stage d = DGone)).
+  { intros kp Hkp. split; [exact H|]. split; [exact Hsc1|]. split; [apply ext_refl|]. intros e He. left. auto. }
+  destruct w; cbn [fst snd]; [apply Hbase; discriminate|apply Hbase; discriminate|].
+  destruct (k_inner ck1) eqn:Ei; cbn [fst snd].
+  - apply Hbase. intros e He. inversion He. reflexivity.
+  - (* IConnected *)
+    destruct (k_conn ck1) as [c|]; cbn [fst snd]; [|apply Hbase; discriminate].
+    destruct (rx_drop_same (k_set_conn None ck1) s) as (R1 & R2 & _).
+    pose proof (mdf_rx_drop (k_set_conn None ck1) s) as F2. pose proof (pf_rx_drop (k_set_conn None ck1) s) as P2.
+    destruct (rx_drop (k_set_conn None ck1) s) as [ck2 s2]. cbn [fst snd] in R1, R2, F2, P2.
+    assert (H2 : G3 obl pre m0 s2) by (eapply G3_mp; eauto).
+    assert (Hck2 : isck s2 rid) by (apply (rel_req_isck s s2 rid (mf_req _ _ F2 rid)); exact Hck).
+    assert (H2' : G3 obl pre m0 (set_req rid (RCheckout ck2) s2)).
+    { eapply G3_same; [exact H2|reflexivity|]. apply R3_set_req; [apply H2|]. intros ck' E. inversion E; subst ck'.
+      split; [exact Hck2|]. intros E'. rewrite R1 in E'. cbn in E'. congruence. }
+    destruct Hck2 as [ckx Hx].
+    pose proof (same_ck_set s2 rid ck2 _ Hx) as Hsc2.
+    pose proof (mdf_register cfg (k_token ck2) c (set_req rid (RCheckout ck2) s2)) as F3.
+    pose proof (pf_register cfg (k_token ck2) c (set_req rid (RCheckout ck2) s2)) as P3.
+    destruct (register cfg (k_token ck2) c (set_req rid (RCheckout ck2) s2)) as [p s3]. cbn [fst snd] in *.
+    split; [eapply G3_mp; eauto|]. split; [eapply same_ck_mdf; eauto|]. split; [|discriminate].
+    eapply ext_trans; [apply ext_pf; exact P2|]. eapply ext_trans; [apply (ext_same s2 (set_req rid (RCheckout ck2) s2)); reflexivity|apply ext_pf; exact P3].
+  - (* IConnecting *)
+    assert (H1 : G3 obl pre m0 (snd (connector_poll rid ByReq s))).
+    { apply G3_connector; [exact H|]. intros d a Hd _. eapply cT_own_new; [apply H|exact Hck|exact Hd]. }
+    pose proof (connector_poll_reqs rid ByReq s) as Q1. pose proof (connector_poll_ready rid ByReq s) as Q2.
+    pose proof (ext_connector_poll rid ByReq s) as X1.
+    destruct (connector_poll rid ByReq s) as [r s1]. cbn [fst snd] in *.
+    assert (Hsc1' : same_ck s1 rid ck1) by (destruct Hsc1 as (ck0 & A & B); exists ck0; unfold get_req in *; rewrite Q1; auto).
+    destruct r as [|res]; cbn [fst snd]; [split; [exact H1|]; split; [exact Hsc1'|]; split; [exact X1|discriminate]|].
+    destruct (rx_drop_same ck1 s1) as (R1 & R2 & _). pose proof (mdf_rx_drop ck1 s1) as F2. pose proof (pf_rx_drop ck1 s1) as P2.
+    destruct (rx_drop ck1 s1) as [ck2 s2]. cbn [fst snd] in R1, R2, F2, P2.
+    assert (H2 : G3 obl pre m0 s2) by (eapply G3_mp; eauto).
+    assert (Hck2 : isck s2 rid) by (eapply same_ck_isck, same_ck_mdf; eauto).
+    set (ck3 := k_set_inner IConnected ck2).
+    assert (H2' : G3 obl pre m0 (set_req rid (RCheckout ck3) s2)).
+    { eapply G3_same; [exact H2|reflexivity|]. apply R3_set_req; [apply H2|]. intros ck' E. inversion E; subst ck'.
+      split; [exact Hck2|]. intros E'. discriminate E'. }
+    destruct Hck2 as [ckx Hx]. pose proof (same_ck_set s2 rid ck3 _ Hx) as Hsc2.
+    assert (Hgone : forall d, get_dial (set_req rid (RCheckout ck3) s2) rid = Some d -> d_stage d = DGone).
+    { intros d Hd. apply (Q2 res d eq_refl). unfold get_dial in *. cbn in Hd. rewrite (pf_dials _ _ P2) in Hd. exact Hd. }
+    assert (X2 : ext s (set_req rid (RCheckout ck3) s2)).
+    { eapply ext_trans; [exact X1|]. eapply ext_trans; [apply ext_pf; exact P2|apply ext_same; reflexivity]. }
+    destruct res as [c|e]; cbn [fst snd].
+    + pose proof (mdf_register cfg (k_token ck3) c (set_req rid (RCheckout ck3) s2)) as F3.
+      pose proof (pf_register cfg (k_token ck3) c (set_req rid (RCheckout ck3) s2)) as P3.
+      destruct (register cfg (k_token ck3) c (set_req rid (RCheckout ck3) s2)) as [p s3]. cbn [fst snd] in *.
+      split; [eapply G3_mp; eauto|]. split; [eapply same_ck_mdf; eauto|]. split; [|discriminate].
+      eapply ext_trans; [exact X2|apply ext_pf; exact P3].
+    + split; [exact H2'|]. split; [exact Hsc2|]. split; [exact X2|]. intros e0 _. right. exact Hgone.
+  - (* IDelayDrop *)
+    assert (H1 : G3 obl pre m0 (snd (connector_poll rid ByReq s))).
+    { apply G3_connector; [exact H|]. intros d a Hd _. eapply cT_own_new; [apply H|exact Hck|exact Hd]. }
+    pose proof (connector_poll_reqs rid ByReq s) as Q1. pose proof (connector_poll_ready rid ByReq s) as Q2.
+    pose proof (ext_connector_poll rid ByReq s) as X1.
+    destruct (connector_poll rid ByReq s) as [r s1]. cbn [fst snd] in *.
+    assert (Hsc1' : same_ck s1 rid ck1) by (destruct Hsc1 as (ck0 & A & B); exists ck0; unfold get_req in *; rewrite Q1; auto).
+    destruct r as [|res]; cbn [fst snd]; [split; [exact H1|]; split; [exact Hsc1'|]; split; [exact X1|discriminate]|].
+    destruct (rx_drop_same ck1 s1) as (R1 & R2 & _). pose proof (mdf_rx_drop ck1 s1) as F2. pose proof (pf_rx_drop ck1 s1) as P2.
+    destruct (rx_drop ck1 s1) as [ck2 s2]. cbn [fst snd] in R1, R2, F2, P2.
+    assert (H2 : G3 obl pre m0 s2) by (eapply G3_mp; eauto).
+    assert (Hck2 : isck s2 rid) by (eapply same_ck_isck, same_ck_mdf; eauto).
+    set (ck3 := k_set_inner IConnected ck2).
+    assert (H2' : G3 obl pre m0 (set_req rid (RCheckout ck3) s2)).
+    { eapply G3_same; [exact H2|reflexivity|]. apply R3_set_req; [apply H2|]. intros ck' E. inversion E; subst ck'.
+      split; [exact Hck2|]. intros E'. discriminate E'. }
+    destruct Hck2 as [ckx Hx]. pose proof (same_ck_set s2 rid ck3 _ Hx) as Hsc2.
+    assert (Hgone : forall d, get_dial (set_req rid (RCheckout ck3) s2) rid = Some d -> d_stage d = DGone).
+    { intros d Hd. apply (Q2 res d eq_refl). unfold get_dial in *. cbn in Hd. rewrite (pf_dials _ _ P2) in Hd. exact Hd. }
+    assert (X2 : ext s (set_req rid (RCheckout ck3) s2)).
+    { eapply ext_trans; [exact X1|]. eapply ext_trans; [apply ext_pf; exact P2|apply ext_same; reflexivity]. }
+    destruct res as [c|e]; cbn [fst snd].
+    + pose proof (mdf_register cfg (k_token ck3) c (set_req rid (RCheckout ck3) s2)) as F3.
+      pose proof (pf_register cfg (k_token ck3) c (set_req rid (RCheckout ck3) s2)) as P3.
+      destruct (register cfg (k_token ck3) c (set_req rid (RCheckout ck3) s2)) as [p s3]. cbn [fst snd] in *.
+      split; [eapply G3_mp; eauto|]. split; [eapply same_ck_mdf; eauto|]. split; [|discriminate].
+      eapply ext_trans; [exact X2|apply ext_pf; exact P3].
+    + split; [exact H2'|]. split; [exact Hsc2|]. split; [exact X2|]. intros e0 _. right. exact Hgone.
+  - (* IDelayed: same code path *)
+    assert (H1 : G3 obl pre m0 (snd (connector_poll rid ByReq s))).
+    { apply G3_connector; [exact H|]. intros d a Hd _. eapply cT_own_new; [apply H|exact Hck|exact Hd]. }
+    pose proof (connector_poll_reqs rid ByReq s) as Q1. pose proof (connector_poll_ready rid ByReq s) as Q2.
+    pose proof (ext_connector_poll rid ByReq s) as X1.
+    destruct (connector_poll rid ByReq s) as [r s1]. cbn [fst snd] in *.
+    assert (Hsc1' : same_ck s1 rid ck1) by (destruct Hsc1 as (ck0 & A & B); exists ck0; unfold get_req in *; rewrite Q1; auto).
+    destruct r as [|res]; cbn [fst snd]; [split; [exact H1|]; split; [exact Hsc1'|]; split; [exact X1|discriminate]|].
+    destruct (rx_drop_same ck1 s1) as (R1 & R2 & _). pose proof (mdf_rx_drop ck1 s1) as F2. pose proof (pf_rx_drop ck1 s1) as P2.
+    destruct (rx_drop ck1 s1) as [ck2 s2]. cbn [fst snd] in R1, R2, F2, P2.
+    assert (H2 : G3 obl pre m0 s2) by (eapply G3_mp; eauto).
+    assert (Hck2 : isck s2 rid) by (eapply same_ck_isck, same_ck_mdf; eauto).
+    set (ck3 := k_set_inner IConnected ck2).
+    assert (H2' : G3 obl pre m0 (set_req rid (RCheckout ck3) s2)).
+    { eapply G3_same; [exact H2|reflexivity|]. apply R3_set_req; [apply H2|]. intros ck' E. inversion E; subst ck'.
+      split; [exact Hck2|]. intros E'. discriminate E'. }
+    destruct Hck2 as [ckx Hx]. pose proof (same_ck_set s2 rid ck3 _ Hx) as Hsc2.
+    assert (Hgone : forall d, get_dial (set_req rid (RCheckout ck3) s2) rid = Some d -> d_stage d = DGone).
+    { intros d Hd. apply (Q2 res d eq_refl). unfold get_dial in *. cbn in Hd. rewrite (pf_dials _ _ P2) in Hd. exact Hd. }
+    assert (X2 : ext s (set_req rid (RCheckout ck3) s2)).
+    { eapply ext_trans; [exact X1|]. eapply ext_trans; [apply ext_pf; exact P2|apply ext_same; reflexivity]. }
+    destruct res as [c|e]; cbn [fst snd].
+    + pose proof (mdf_register cfg (k_token ck3) c (set_req rid (RCheckout ck3) s2)) as F3.
+      pose proof (pf_register cfg (k_token ck3) c (set_req rid (RCheckout ck3) s2)) as P3.
+      destruct (register cfg (k_token ck3) c (set_req rid (RCheckout ck3) s2)) as [p s3]. cbn [fst snd] in *.
+      split; [eapply G3_mp; eauto|]. split; [eapply same_ck_mdf; eauto|]. split; [|discriminate].
+      eapply ext_trans; [exact X2|apply ext_pf; exact P3].
+    + split; [exact H2'|]. split; [exact Hsc2|]. split; [exact X2|]. intros e0 _. right. exact Hgone.
+Qed.
+
+
+(* ------------------------------------------------------------------ operations *)
+Lemma G3_upd_conn obl pre m0 c f s : G3 obl pre m0 s -> G3 obl pre m0 (upd_conn c f s).
+Proof.
+  intros H. eapply G3_quiet; [exact H| |apply drops_same; reflexivity].
+  apply r3f_mdf; [apply mdf_upd_conn|cbn; apply upd_nth_len|reflexivity].
+Qed.
+Lemma G3_frame obl pre m0 s s' : G3 obl pre m0 s -> out s' = out s -> conns s' = conns s -> dials s' = dials s -> keys s' = keys s ->
+  reqs s' = reqs s -> tasks s' = tasks s -> G3 obl pre m0 s'.
+Proof. intros H Ho E1 E2 E3 E4 E5. eapply G3_same; [exact H|exact Ho|]. eapply R3_out; eauto. apply H. Qed.
+
+Lemma G3_hold_release obl pre m0 r p s : G3 obl pre m0 s -> G3 obl pre m0 (hold_release r p s).
+Proof.
+  intros H. unfold hold_release. eapply G3_mp; [|apply mdf_pooled_drop|apply pf_pooled_drop].
+  apply G3_emit_quiet; [intros []|reflexivity|reflexivity|]. apply G3_upd_conn. exact H.
+Qed.
+
+Lemma checkout_drop_dial_gone rid ck s : (forall d, get_dial s rid = Some d -> d_stage d = DGone) ->
+  forall d, get_dial (checkout_drop cfg rid ck s) rid = Some d -> d_stage d = DGone.
+Proof.
+  intros Hg. unfold checkout_drop.
+  set (s1 := match k_conn ck with
+             | Some c => if is_open s c && (g_pool cfg && negb (k_token ck =? 0)) then pool_push (g_max_idle cfg) (k_token ck) c s else drop_conn c s
+             | None => s end).
+  assert (D1 : dials s1 = dials s).
+  { subst s1. destruct (k_conn ck) as [c|]; [|reflexivity].
+    match goal with |- context [if ?b then pool_push _ _ _ _ else _] => destruct b end;
+      [apply (pf_dials _ _ (pf_pool_push _ _ _ _))|apply (pf_dials _ _ (pf_drop_conn _ _))]. }
+  match goal with |- context [rx_drop ck ?x] => set (s2 := x) end.
+  assert (D2 : dials s2 = dials s1).
+  { subst s2. destruct (match k_inner ck with IDelayDrop => _ | _ => false end); [reflexivity|].
+    match goal with |- context [if ?b then pool_cancel _ _ _ else _] => destruct b end;
+      [apply (pf_dials _ _ (pf_pool_cancel _ _ _))|reflexivity]. }
+  pose proof (pf_dials _ _ (pf_rx_drop ck s2)) as D3. destruct (rx_drop ck s2) as [ck' s3]. cbn [snd] in D3.
+  assert (Hs3 : forall d, get_dial s3 rid = Some d -> d_stage d = DGone) by (intros d; unfold get_dial; rewrite D3, D2, D1; apply Hg).
+  assert (Hup : forall d, get_dial (upd_dial rid (d_set_stage DGone) s3) rid = Some d -> d_stage d = DGone).
+  { intros d. rewrite get_dial_upd, Nat.eqb_refl. destruct (get_dial s3 rid); [|discriminate]. cbn. intros E. inversion E. reflexivity. }
+  destruct (k_inner ck); auto. destruct (match get_dial s1 rid with Some d => _ | None => false end); auto.
+Qed.
+
+
+Lemma G3_set_req obl pre m0 r v s : G3 obl pre m0 s ->
+  (forall ck', v = RCheckout ck' -> isck s r /\ (k_inner ck' = IDelayDrop -> tokof (cur m0 s) r (k_token ck'))) ->
+  G3 obl pre m0 (set_req r v s).
+Proof. intros H Hv. eapply G3_same; [exact H|reflexivity|]. apply R3_set_req; [apply H|exact Hv]. Qed.
+Lemma G3_unwake obl pre m0 r s : G3 obl pre m0 s -> G3 obl pre m0 (unwake_req r s).
+Proof. intros H. eapply G3_frame; [exact H| | | | | |]; reflexivity. Qed.
+
+Lemma G3_do_poll obl m0 r s : G3 obl 0 m0 s -> MD cfg None s -> G3 obl 0 m0 (do_poll cfg r s).
+Proof.
+  intros H HM. unfold do_poll. destruct (get_req s r) as [[|ck|p fin pl| |]|] eqn:Er; try exact H.
+  - (* RError *)
+    apply G3_set_req; [|discriminate]. apply G3_emit_res; [apply G3_unwake; exact H|]. intros _ E. contradiction E. reflexivity.
+  - (* RCheckout *)
+    destruct (md_ck _ _ _ HM r ck Er) as [Hk Hg].
+    assert (HM0 : MD cfg (Some r) (unwake_req r s)) by (eapply MD_mdf; [apply mdf_unwake_req|apply MD_weaken; exact HM]).
+    assert (Hb : k_token ck <= List.length (toks (unwake_req r s))) by (apply (md_ct _ _ _ HM r ck Er)).
+    destruct (MD_checkout_poll cfg r ck (unwake_req r s) HM0 Hk Hg Hb) as (HM1 & Hk1 & Hg1 & Hl1 & Hb1).
+    assert (H0 : G3 obl 0 m0 (unwake_req r s)) by (apply G3_unwake; exact H).
+    assert (Hsc0 : same_ck (unwake_req r s) r ck) by (exists ck; auto).
+    destruct (G3_checkout_poll obl 0 m0 r ck (unwake_req r s) H0 Hsc0) as (H1 & Hsc1 & X1 & He1).
+    destruct (checkout_poll cfg r ck (unwake_req r s)) as [[res ck1] s1]. cbn [fst snd] in *.
+    assert (Htk1 : k_inner ck1 = IDelayDrop -> tokof (cur m0 s1) r (k_token ck1)) by (eapply same_ck_tokof; [apply H1|exact Hsc1]).
+    destruct res as [|[p|e]].
+    + (* pending *)
+      apply G3_emit_quiet; [intros []|reflexivity|reflexivity|].
+      eapply G3_same; [exact H1|reflexivity|]. apply R3_set_req; [apply H1|]. intros ck' E. inversion E; subst ck'.
+      split; [eapply same_ck_isck; eauto|exact Htk1].
+    + (* handed a connection *)
+      destruct (match get_conn s1 (fst p) with Some cn => _ | None => _ end) as [[[sh op_] rd] hs].
+      apply G3_emit_quiet; [intros []|reflexivity|reflexivity|].
+      apply G3_checkout_drop; [|exact Hk1|].
+      * eapply G3_step; [exact H1|reflexivity|reflexivity|].
+        match goal with |- R3 _ _ (set_req r ?v (upd_conn ?c ?g (emit ?e s1))) =>
+          apply (R3_out 0 _ (set_req r v (upd_conn c g s1))); try reflexivity end.
+        apply R3_ehand. apply H1.
+      * intros E. eapply tokof_ext; [|apply (Htk1 E)]. eexists [_]. reflexivity.
+    + (* error *)
+      apply G3_emit_res.
+      * apply G3_checkout_drop; [|exact Hk1|].
+        -- eapply G3_same; [exact H1|reflexivity|]. apply R3_set_req; [apply H1|discriminate].
+        -- intros E. eapply tokof_ext; [|apply (Htk1 E)]. apply ext_same. reflexivity.
+      * intros _ Hne. destruct (He1 e eq_refl) as [->|Hgone]; [contradiction Hne; reflexivity|].
+        apply checkout_drop_dial_gone. exact Hgone.
+  - (* RHolding *)
+    destruct fin.
+    + apply G3_emit_res; [|intros _ E; contradiction E; reflexivity].
+      apply G3_hold_release. apply G3_set_req; [apply G3_unwake; exact H|discriminate].
+    + apply G3_emit_quiet; [intros []|reflexivity|reflexivity|].
+      apply G3_set_req; [apply G3_unwake; exact H|discriminate].
+Qed.
+
+
+(* ------------------------------------------------------------------ the tracker's reading of the operation *)
+Lemma upd_nth_ext_at {A} (g h : A -> A) : forall l n x, nth_error l n = Some x -> g x = h x -> upd_nth n g l = upd_nth n h l.
+Proof.
+  induction l as [|a l IH]; intros [|n] x H E; cbn in *; try discriminate; auto.
+  - inversion H; subst. rewrite E. reflexivity.
+  - rewrite (IH n x H E). reflexivity.
+Qed.
+Lemma upd_nth_none' {A} (g : A -> A) : forall l n, nth_error l n = None -> upd_nth n g l = l.
+Proof. induction l as [|a l IH]; intros [|n] H; cbn in *; auto; try discriminate. rewrite IH; auto. Qed.
+
+Lemma map_upd_at {A B} (g : A -> B) (f : A -> A) (h : B -> B) : forall l n,
+  (forall x, nth_error l n = Some x -> g (f x) = h (g x)) -> map g (upd_nth n f l) = upd_nth n h (map g l).
+Proof.
+  induction l as [|a l IH]; intros [|n] H; cbn [upd_nth map]; auto.
+  - rewrite (H a eq_refl). reflexivity.
+  - rewrite IH; [reflexivity|]. intros x Hx. apply H. exact Hx.
+Qed.
+
+(* an update of one tracker entry that keeps dial, outcome and key *)
+Lemma RV_ri_upd_ab f r m : (forall y, ri_dial (f y) = ri_dial y /\ ri_resolved (f y) = ri_resolved y /\ ri_key (f y) = ri_key y) ->
+  exists ab, RV (ri_upd f r m) = upd_nth r (fun q => mkR3 (ab q) (q_dl q) (q_rs q) (q_key q)) (RV m).
+Proof.
+  intros Hf. destruct (nth_error (m_reqs m) r) as [y0|] eqn:E.
+  - exists (fun _ => ri_aband (f y0)). unfold RV, ri_upd. cbn [m_reqs set_m_reqs]. apply map_upd_at.
+    intros x Hx. rewrite E in Hx. inversion Hx; subst x. destruct (Hf y0) as (A & B & C). unfold rv3. cbn. rewrite A, B, C. reflexivity.
+  - exists (fun q => q_ab q). unfold RV, ri_upd. cbn [m_reqs set_m_reqs]. apply map_upd_at. intros x Hx. rewrite E in Hx. discriminate.
+Qed.
+
+(* a tracker move that only touches the abandon flag of a request that is no checkout *)
+Lemma R3_ab_move pre m m' s r ab : RV m' = upd_nth r (fun q => mkR3 (ab q) (q_dl q) (q_rs q) (q_key q)) (RV m) ->
+  NC m' = NC m -> m_keys m' = m_keys m -> ~ isck s r -> R3 pre m s -> R3 pre m' s.
+Proof.
+  intros E1 E2 E3 Hn H. pose proof H as [A1 A2 A3 A4 A5 A6 A7].
+  apply (R3_move pre m m' s s r (fun q => mkR3 (ab q) (q_dl q) (q_rs q) (q_key q)) (fun d => d)); auto.
+  - congruence.
+  - rewrite upd_nth_id. reflexivity.
+  - intros r' _. apply rel_req_refl.
+Qed.
+
+Lemma track_op_cancel_view m r ob : exists ab,
+  RV (track_op cfg m (Cancel r) ob) = upd_nth r (fun q => mkR3 (ab q) (q_dl q) (q_rs q) (q_key q)) (RV m)
+  /\ NC (track_op cfg m (Cancel r) ob) = NC m /\ m_keys (track_op cfg m (Cancel r) ob) = m_keys m.
+Proof.
+  cbn [track_op].
+  assert (Hid : exists ab, RV m = upd_nth r (fun q => mkR3 (ab q) (q_dl q) (q_rs q) (q_key q)) (RV m)).
+  { exists (fun q => q_ab q). symmetry. erewrite <- (upd_nth_id (RV m) r) at 2.
+    destruct (nth_error (RV m) r) as [q0|] eqn:E; [|rewrite !upd_nth_none' by exact E; reflexivity].
+    apply (upd_nth_ext_at _ _ _ _ q0 E). destruct q0; reflexivity. }
+  destruct (nth_error (m_reqs m) r) as [x|]; [|destruct Hid as [ab Hid]; exists ab; auto].
+  set (f := fun y => set_ri_pend false (set_ri_stat SCancelled
+       (match ri_stat y, ri_dial y with SLive, DsFlying => set_ri_aband true y | _, _ => y end))).
+  assert (Hf : forall y, ri_dial (f y) = ri_dial y /\ ri_resolved (f y) = ri_resolved y /\ ri_key (f y) = ri_key y)
+    by (intros y; unfold f; destruct (ri_stat y) eqn:E1, (ri_dial y) eqn:E2; cbn; auto).
+  destruct (RV_ri_upd_ab f r m Hf) as [ab Hab].
+  destruct (ri_stat x); try (destruct Hid as [ab' Hid]; exists ab'; auto; fail); exists ab; auto.
+Qed.
+
+
+Lemma G3_start obl pre m0 s : out s = [] -> R3 pre m0 s -> G3 obl pre m0 s.
+Proof. intros Ho H. unfold G3, cur. rewrite Ho. cbn. auto. Qed.
+
+Lemma R3_cancel m r s ob : R3 0 m s -> ~ isck s r -> R3 0 (track_op cfg m (Cancel r) ob) s.
+Proof.
+  intros H Hn. destruct (track_op_cancel_view m r ob) as (ab & E1 & E2 & E3). eapply R3_ab_move; eauto.
+Qed.
+Lemma tokof_cancel m r ob r0 t : tokof m r0 t -> tokof (track_op cfg m (Cancel r) ob) r0 t.
+Proof.
+  intros H. destruct (track_op_cancel_view m r ob) as (ab & E1 & E2 & E3). eapply tokof_move; [exact E1|reflexivity|exact E3|exact H].
+Qed.
+
+Lemma not_isck_set s r v q : get_req s r = Some q -> (forall ck, v <> RCheckout ck) -> ~ isck (set_req r v s) r.
+Proof. intros Hq Hv [ck Hc]. rewrite (isck_set_req_same s r q v Hq) in Hc. inversion Hc. eapply Hv; eauto. Qed.
+
+Lemma G3_op_cancel m r s ob : R3 0 m s -> MD cfg None s -> out s = [] ->
+  G3 [] 0 (track_op cfg m (Cancel r) ob) (do_cancel cfg r s).
+Proof.
+  intros H HM Ho. unfold do_cancel.
+  assert (Hset : forall q v, get_req s r = Some q -> (forall ck, v <> RCheckout ck) ->
+            G3 [] 0 (track_op cfg m (Cancel r) ob) (set_req r v s)).
+  { intros q v Hq Hv. apply G3_start; [exact Ho|]. apply R3_cancel; [apply R3_set_req; [exact H|]|eapply not_isck_set; eauto].
+    intros ck' E. exfalso. eapply Hv; eauto. }
+  destruct (get_req s r) as [[|ck|p fin pl| |]|] eqn:Er.
+  - apply G3_unwake. eapply Hset; [reflexivity|discriminate].
+  - destruct (md_ck _ _ _ HM r ck Er) as [Hk _]. apply G3_unwake. apply G3_checkout_drop; [eapply Hset; [reflexivity|discriminate]|exact Hk|].
+    intros E. replace (cur (track_op cfg m (Cancel r) ob) (set_req r RCancelled s)) with (track_op cfg m (Cancel r) ob)
+      by (unfold cur; cbn; rewrite Ho; reflexivity).
+    apply tokof_cancel. apply (r3_ck _ _ _ H r ck Er E).
+  - apply G3_unwake. apply G3_hold_release. eapply Hset; [reflexivity|discriminate].
+  - apply G3_unwake. apply G3_start; [exact Ho|]. apply R3_cancel; [exact H|]. intros [ck Hc]. rewrite Er in Hc. discriminate.
+  - apply G3_unwake. apply G3_start; [exact Ho|]. apply R3_cancel; [exact H|]. intros [ck Hc]. rewrite Er in Hc. discriminate.
+  - apply G3_start; [exact Ho|]. apply R3_cancel; [exact H|]. intros [ck Hc]. rewrite Er in Hc. discriminate.
+Qed.
+
+
+Definition dd_g (x : dres) (q : rq3) : rq3 :=
+  match q_dl q, q_rs q with DsFlying, None => mkR3 (q_ab q) (q_dl q) (Some (isok x)) (q_key q) | _, _ => q end.
+Definition dd_f (x : dres) (d : dial) : dial :=
+  match d_stage d with DInFlight => d_set_polled None (d_set_stage (DResolved x) d) | _ => d end.
+
+Lemma wake_poller_same p r s : conns (wake_poller p r s) = conns s /\ dials (wake_poller p r s) = dials s /\ keys (wake_poller p r s) = keys s
+  /\ reqs (wake_poller p r s) = reqs s /\ tasks (wake_poller p r s) = tasks s /\ out (wake_poller p r s) = out s.
+Proof.
+  destruct p as [[|tid]|]; cbn [wake_poller].
+  - repeat split.
+  - unfold wake_task. destruct (existsb (Nat.eqb tid) (runq s)); repeat split.
+  - repeat split.
+Qed.
+
+Lemma dial_done_dials r x s : dials (do_dial_done r x s) = upd_nth r (dd_f x) (dials s)
+  /\ conns (do_dial_done r x s) = conns s /\ keys (do_dial_done r x s) = keys s /\ reqs (do_dial_done r x s) = reqs s
+  /\ tasks (do_dial_done r x s) = tasks s /\ out (do_dial_done r x s) = out s.
+Proof.
+  unfold do_dial_done. destruct (get_dial s r) as [d|] eqn:Ed.
+  2: { split; [rewrite upd_nth_none' by exact Ed; reflexivity|auto]. }
+  assert (Hid : d_stage d <> DInFlight -> dials s = upd_nth r (dd_f x) (dials s)).
+  { intros Hs. rewrite <- (upd_nth_id (dials s) r) at 1. apply (upd_nth_ext_at _ _ _ _ d Ed). unfold dd_f. destruct (d_stage d); congruence. }
+  destruct (d_stage d) eqn:Es; try (split; [apply Hid; discriminate|auto]).
+  destruct (wake_poller_same (d_polled d) r (upd_dial r (fun d0 => d_set_polled None (d_set_stage (DResolved x) d0)) s)) as (A & B & C & D & E & F).
+  rewrite A, B, C, D, E, F. split; [|auto]. cbn. apply (upd_nth_ext_at _ _ _ _ d Ed). unfold dd_f. rewrite Es. reflexivity.
+Qed.
+
+Lemma G3_op_dial_done m r x s ob : R3 0 m s -> out s = [] ->
+  G3 [] 0 (track_op cfg m (DialDone r x) ob) (do_dial_done r x s).
+Proof.
+  intros H Ho. destruct (dial_done_dials r x s) as (D1 & D2 & D3 & D4 & D5 & D6).
+  apply G3_start; [rewrite D6; exact Ho|]. pose proof H as [A1 A2 A3 A4 A5 A6 A7].
+  apply (R3_move 0 m _ s _ r (dd_g x) (dd_f x)); auto.
+  - cbn [track_op]. apply RV_ri_upd. intros y. unfold rv3, dd_g. cbn. destruct (ri_dial y) eqn:E1, (ri_resolved y) eqn:E2; cbn; rewrite ?E1, ?E2; reflexivity.
+  - intros q. unfold dd_g. destruct (q_dl q), (q_rs q); reflexivity.
+  - cbn [track_op]. rewrite NC_ri_upd, D2. exact A1.
+  - intros r' _. unfold get_req. rewrite D4. apply rel_req_refl.
+  - intros tid r0 t own. rewrite D5. auto.
+  - intros q Hq Hb [ck Hc]. unfold get_req in Hc. rewrite D4 in Hc. apply (A4 r q Hq); [|exists ck; exact Hc].
+    unfold dd_g in Hb. destruct (q_dl q), (q_rs q); exact Hb.
+  - intros ck Hc. unfold get_req in Hc. rewrite D4 in Hc. apply A7. exact Hc.
+  - intros _ q d _ _ (E1 & E2 & E3 & E4). destruct q as [ab dl rs k]. cbn [q_dl q_rs] in *.
+    unfold dd_g, dd_f, direl. cbn [q_dl q_rs q_ab q_key].
+    destruct (d_stage d) eqn:Es.
+    + destruct (E1 eq_refl) as [-> ->]. cbn. rewrite Es. repeat split; intros; try discriminate; auto.
+    + destruct (E2 eq_refl) as [-> ->]. cbn. repeat split; intros; try discriminate.
+      match goal with E : Some _ = Some true |- _ => inversion E end. destruct x; try discriminate. eauto.
+    + destruct dl, rs as [b|]; cbn; rewrite ?Es; repeat split; intros; try discriminate; auto;
+        try (specialize (E3 eq_refl eq_refl); discriminate).
+    + destruct dl, rs as [b|]; cbn; rewrite ?Es; repeat split; intros; try discriminate; auto;
+        try (specialize (E3 eq_refl eq_refl); discriminate).
+Qed.
+
+
+(* ------------------------------------------------------------------ Issue *)
+Lemma find_key_snoc k : forall ks i, find_key k ks i = None -> find_key k (ks ++ [k]) i = Some (i + List.length ks).
+Proof.
+  induction ks as [|k0 ks IH]; intros i H; cbn [find_key app List.length] in *.
+  - rewrite key_eqb_refl. f_equal. lia.
+  - destruct (key_eqb k k0); [discriminate|]. rewrite IH by exact H. f_equal. lia.
+Qed.
+
+Lemma issue_keys ks0 k s : ks0 = keys s ->
+  (match find_key k ks0 1 with Some _ => ks0 | None => ks0 ++ [k] end) = keys (snd (key_insert k s))
+  /\ tok_of (match find_key k ks0 1 with Some _ => ks0 | None => ks0 ++ [k] end) k = fst (key_insert k s).
+Proof.
+  intros ->. unfold key_insert, tok_of. destruct (find_key k (keys s) 1) as [t|] eqn:E; cbn [fst snd].
+  - rewrite E. auto.
+  - split; [reflexivity|]. rewrite (find_key_snoc k (keys s) 1 E). cbn. lia.
+Qed.
+
+Lemma tok_of_app ks l k t : tok_of ks k = t -> t <> 0 -> tok_of (ks ++ l) k = t.
+Proof.
+  unfold tok_of. destruct (find_key k ks 1) as [t0|] eqn:E; [|intros <- H; contradiction H; reflexivity].
+  intros <- _. rewrite (token_stable k ks l t0 E). reflexivity.
+Qed.
+
+Lemma nth_error_app_some' {A} (l l' : list A) n x : nth_error l n = Some x -> nth_error (l ++ l') n = Some x.
+Proof. intros H. rewrite nth_error_app1; [exact H|]. eapply nth_error_lt; eauto. Qed.
+
+Definition issue_m (m : mst) (u : nat) (p : proto) (ob : opobs) : mst := track_op cfg m (Issue u p) ob.
+Definition issue_ks (m : mst) (u : nat) : list key :=
+  match nth u (g_uris cfg) None with
+  | Some k' => if g_pool cfg then match find_key k' (m_keys m) 1 with Some _ => m_keys m | None => m_keys m ++ [k'] end else m_keys m
+  | None => m_keys m
+  end.
+
+Lemma issue_m_view m u p ob :
+  RV (issue_m m u p ob) = RV m ++ [mkR3 false DsNone None (nth u (g_uris cfg) None)]
+  /\ NC (issue_m m u p ob) = NC m /\ m_keys (issue_m m u p ob) = issue_ks m u.
+Proof. unfold issue_m, issue_ks, RV, NC. cbn [track_op m_reqs m_conns m_keys set_m_keys set_m_reqs]. rewrite map_app. auto. Qed.
+
+Lemma issue_ks_ext m u : exists l, issue_ks m u = m_keys m ++ l.
+Proof.
+  unfold issue_ks. destruct (nth u (g_uris cfg) None) as [k|]; [|exists []; rewrite app_nil_r; reflexivity].
+  destruct (g_pool cfg); [|exists []; rewrite app_nil_r; reflexivity].
+  destruct (find_key k (m_keys m) 1); [exists []; rewrite app_nil_r; reflexivity|exists [k]; reflexivity].
+Qed.
+
+Lemma tokof_issue m u p ob r t : tokof m r t -> t <> 0 -> tokof (issue_m m u p ob) r t.
+Proof.
+  intros (q & Hq & Hk) Ht. destruct (issue_m_view m u p ob) as (E1 & _ & E3). destruct (issue_ks_ext m u) as [l El].
+  exists q. split; [rewrite E1; apply nth_error_app_some'; exact Hq|].
+  unfold key_tok in *. rewrite E3, El. destruct (q_key q) as [k0|]; [|congruence]. apply tok_of_app; assumption.
+Qed.
+
+
+Lemma R3_issue_start m u p ob s : R3 0 m s -> MD cfg None s -> R3 1 (issue_m m u p ob) s.
+Proof.
+  intros [A1 A2 A3 A4 A5 A6 A7] HM. destruct (issue_m_view m u p ob) as (E1 & E2 & E3).
+  assert (Hold : forall r q, nth_error (RV (issue_m m u p ob)) r = Some q -> r < List.length (RV m) -> nth_error (RV m) r = Some q).
+  { intros r q Hq Hl. rewrite E1, nth_error_app1 in Hq by exact Hl. exact Hq. }
+  assert (Hlast : forall r q, nth_error (RV (issue_m m u p ob)) r = Some q -> ~ r < List.length (RV m) ->
+                   r = List.length (dials s) /\ q = mkR3 false DsNone None (nth u (g_uris cfg) None)).
+  { intros r q Hq Hl. rewrite E1, nth_error_snoc in Hq. destruct (Nat.ltb_spec r (List.length (RV m))); [contradiction|].
+    destruct (Nat.eqb_spec r (List.length (RV m))); [|discriminate]. inversion Hq. split; [lia|reflexivity]. }
+  constructor.
+  - rewrite E2. exact A1.
+  - rewrite E1, app_length. cbn. lia.
+  - intros E. discriminate E.
+  - intros r q Hq Hb. destruct (Nat.lt_ge_cases r (List.length (RV m))) as [Hl|Hg]; [apply (A4 r q); auto|].
+    destruct (Hlast r q Hq) as [_ ->]; [lia|]. discriminate Hb.
+  - intros Hc r q d Hq Hd. destruct (Nat.lt_ge_cases r (List.length (RV m))) as [Hl|Hg]; [apply (A5 Hc r q d); auto|].
+    destruct (Hlast r q Hq) as [-> _]; [lia|]. apply nth_error_lt in Hd. lia.
+  - intros tid r t own H. apply tokof_issue; [eapply A6; eauto|]. destruct (md_task _ _ _ HM tid r t own H) as (_ & _ & Ht). exact Ht.
+  - intros r ck H Hi. apply tokof_issue; [eapply A7; eauto|]. destruct (md_ck _ _ _ HM r ck H) as [(_ & _ & K3) _].
+    destruct (K3 Hi) as (_ & _ & Ht). exact Ht.
+Qed.
+
+Lemma R3_add m s q d k : R3 1 m s -> List.length (reqs s) = List.length (dials s) ->
+  nth_error (RV m) (List.length (dials s)) = Some (mkR3 false DsNone None k) ->
+  m_keys m = keys s -> (d_stage d = DNew \/ d_stage d = DGone) ->
+  (forall ck, q = RCheckout ck -> k_inner ck = IDelayDrop -> key_tok m k = k_token ck) ->
+  R3 0 m (add_req q d s).
+Proof.
+  intros [A1 A2 A3 A4 A5 A6 A7] Hlen Hlast Hk Hst Hq. unfold add_req. constructor.
+  - exact A1.
+  - cbn. rewrite app_length. cbn. lia.
+  - intros _. exact Hk.
+  - intros r qv Hr Hb [ck Hc]. unfold get_req in Hc. cbn [reqs set_dials set_reqs] in Hc. rewrite nth_error_snoc in Hc.
+    destruct (Nat.ltb_spec r (List.length (reqs s))) as [Hl|Hg]; [apply (A4 r qv Hr Hb); exists ck; exact Hc|].
+    destruct (Nat.eqb_spec r (List.length (reqs s))) as [->|]; [|discriminate]. rewrite Hlen, Hlast in Hr. inversion Hr; subst qv. discriminate Hb.
+  - intros Hc r qv d' Hr Hd. unfold get_dial in Hd. cbn [dials set_dials] in Hd. rewrite nth_error_snoc in Hd.
+    destruct (Nat.ltb_spec r (List.length (dials s))) as [Hl|Hg]; [apply (A5 Hc r qv d' Hr Hd)|].
+    destruct (Nat.eqb_spec r (List.length (dials s))) as [->|]; [|discriminate]. inversion Hd; subst d'. rewrite Hlast in Hr. inversion Hr; subst qv.
+    unfold direl. cbn. destruct Hst as [E|E]; rewrite E; repeat split; intros; try discriminate; auto.
+  - exact A6.
+  - intros r ck Hc Hi. unfold get_req in Hc. cbn [reqs set_dials set_reqs] in Hc. rewrite nth_error_snoc in Hc.
+    destruct (Nat.ltb_spec r (List.length (reqs s))) as [Hl|Hg]; [apply (A7 r ck Hc Hi)|].
+    destruct (Nat.eqb_spec r (List.length (reqs s))) as [->|]; [|discriminate]. inversion Hc; subst q.
+    rewrite Hlen. eexists. split; [exact Hlast|]. cbn. apply (Hq ck eq_refl Hi).
+Qed.
+
+
+Lemma RV_fold_drops es : forall m, Forall is_drop es -> RV (fold_left track_ev es m) = RV m /\ m_keys (fold_left track_ev es m) = m_keys m.
+Proof.
+  induction es as [|e es IH]; intros m HF; cbn [fold_left]; [auto|]. inversion HF; subst.
+  destruct (IH (track_ev m e) H2) as [-> ->]. destruct e; try contradiction. split; reflexivity.
+Qed.
+Lemma cur_drops m0 s s' : drops s s' -> RV (cur m0 s') = RV (cur m0 s) /\ m_keys (cur m0 s') = m_keys (cur m0 s).
+Proof.
+  intros (es & Ho & HF). unfold cur. rewrite Ho, rev_app_distr, fold_left_app. apply RV_fold_drops. apply Forall_rev. exact HF.
+Qed.
+
+(* the prefix of [do_issue]: only the pool is touched *)
+Record ipre (m1 : mst) (s0 sx : state) : Prop := mkIpre {
+  ip_g : G3 [] 1 m1 sx;
+  ip_rlen : List.length (reqs sx) = List.length (reqs s0);
+  ip_dials : dials sx = dials s0;
+  ip_drops : drops s0 sx
+}.
+Lemma ipre_step m1 s0 sx sy : ipre m1 s0 sx -> r3f 1 sx sy -> List.length (reqs sy) = List.length (reqs sx) -> drops sx sy -> ipre m1 s0 sy.
+Proof.
+  intros [A B C D] F Hr Hd. constructor.
+  - eapply G3_quiet; [exact A|exact F|exact Hd].
+  - rewrite Hr. exact B.
+  - rewrite (f_dials _ _ _ F). exact C.
+  - eapply drops_trans; eauto.
+Qed.
+Lemma ipre_pf m1 s0 sx sy : ipre m1 s0 sx -> mdf sx sy -> pf sx sy -> ipre m1 s0 sy.
+Proof. intros H F P. eapply ipre_step; [exact H|apply r3f_mdf_pf; assumption|apply (mf_rlen _ _ F)|apply (pf_out _ _ P)]. Qed.
+Lemma r3f_key_insert k s : r3f 1 s (snd (key_insert k s)) /\ reqs (snd (key_insert k s)) = reqs s.
+Proof.
+  unfold key_insert. destruct (find_key k (keys s) 1); cbn [snd]; (split; [|reflexivity]); constructor; auto;
+    try (intros r; apply rel_req_refl); intros E; discriminate E.
+Qed.
+
+Lemma ipre_add m m1 u p ob s0 sx q d : m1 = issue_m m u p ob -> out s0 = [] ->
+  List.length (RV m) = List.length (dials s0) -> List.length (reqs s0) = List.length (dials s0) ->
+  ipre m1 s0 sx -> issue_ks m u = keys sx -> (d_stage d = DNew \/ d_stage d = DGone) ->
+  (forall ck, q = RCheckout ck -> k_inner ck = IDelayDrop ->
+     exists k, nth u (g_uris cfg) None = Some k /\ tok_of (issue_ks m u) k = k_token ck) ->
+  G3 [] 0 m1 (add_req q d sx).
+Proof.
+  intros -> Ho Hn Hl [A B C D] Hk Hst Hq. destruct (issue_m_view m u p ob) as (E1 & E2 & E3).
+  destruct (cur_drops (issue_m m u p ob) s0 sx D) as [V1 V2].
+  assert (Hc0 : cur (issue_m m u p ob) s0 = issue_m m u p ob) by (unfold cur; rewrite Ho; reflexivity).
+  rewrite Hc0 in V1, V2.
+  destruct A as [Ae Ar]. split; [exact Ae|].
+  change (cur (issue_m m u p ob) (add_req q d sx)) with (cur (issue_m m u p ob) sx).
+  apply (R3_add _ sx q d (nth u (g_uris cfg) None)); [exact Ar|congruence| | | exact Hst|].
+  - rewrite V1, E1, C, <- Hn, nth_error_app2, Nat.sub_diag by lia. reflexivity.
+  - rewrite V2, E3. exact Hk.
+  - intros ck E Hi. destruct (Hq ck E Hi) as (k & -> & Ht). unfold key_tok. rewrite V2, E3. exact Ht.
+Qed.
+
+
+Lemma conns_key_insert k s : conns (snd (key_insert k s)) = conns s /\ out (snd (key_insert k s)) = out s.
+Proof. unfold key_insert. destruct (find_key k (keys s) 1); auto. Qed.
+
+Lemma G3_op_issue m u p s ob : R3 0 m s -> MD cfg None s -> out s = [] ->
+  G3 [] 0 (issue_m m u p ob) (do_issue cfg u p s).
+Proof.
+  intros H HM Ho. set (m1 := issue_m m u p ob). set (s0 := set_woken (woken s ++ [false]) s).
+  assert (Hn : List.length (RV m) = List.length (dials s0)) by (rewrite (r3_nr _ _ _ H); cbn; lia).
+  assert (Hl : List.length (reqs s0) = List.length (dials s0)) by (apply (md_len _ _ _ HM)).
+  assert (Hka : m_keys m = keys s0) by (apply (r3_ka _ _ _ H); reflexivity).
+  assert (I0 : ipre m1 s0 s0).
+  { constructor; auto using drops_refl. apply G3_start; [exact Ho|]. eapply R3_out; [| | | | |apply (R3_issue_start m u p ob s H HM)]; reflexivity. }
+  assert (Hadd : forall sx q d, ipre m1 s0 sx -> issue_ks m u = keys sx -> (d_stage d = DNew \/ d_stage d = DGone) ->
+            (forall ck, q = RCheckout ck -> k_inner ck = IDelayDrop ->
+               exists k, nth u (g_uris cfg) None = Some k /\ tok_of (issue_ks m u) k = k_token ck) -> G3 [] 0 m1 (add_req q d sx)).
+  { intros sx q d. apply (ipre_add m m1 u p ob s0 sx q d eq_refl Ho Hn Hl). }
+  unfold do_issue. fold s0. unfold issue_ks in Hadd.
+  destruct (nth u (g_uris cfg) None) as [k|] eqn:Eu.
+  2: { apply (Hadd s0 RError); auto. discriminate. }
+  destruct (g_pool cfg) eqn:Ep; cbn [negb].
+  2: { apply (Hadd s0); auto. intros ck E Hi. inversion E; subst ck. discriminate Hi. }
+  destruct (issue_keys (m_keys m) k s0 Hka) as [K1 K2].
+  destruct (r3f_key_insert k s0) as [F1 R1]. destruct (conns_key_insert k s0) as [C1 O1].
+  destruct (key_insert k s0) as [t s1]. cbn [fst snd] in *.
+  assert (I1 : ipre m1 s0 s1) by (eapply ipre_step; [exact I0|exact F1|rewrite R1; reflexivity|apply drops_same; exact O1]).
+  pose proof (mdf_pool_pop (g_timeout cfg) t s1) as F2. pose proof (pf_pool_pop (g_timeout cfg) t s1) as P2.
+  destruct (pool_pop (g_timeout cfg) t s1) as [found s2]. cbn [snd] in F2, P2.
+  assert (I2 : ipre m1 s0 s2) by (eapply ipre_pf; eauto).
+  assert (K2' : keys s2 = keys s1) by (apply (pf_keys _ _ P2)).
+  destruct found as [c|].
+  { apply (Hadd s2); [exact I2|congruence|right; reflexivity|]. intros ck E Hi. inversion E; subst ck. discriminate Hi. }
+  set (pend := match p_marker (get_tok s2 t) with Some _ => true | None => false end).
+  set (s3 := upd_tok t (fun q => set_waiting (p_waiting q ++ [(List.length (reqs s0), pend)]) q) s2).
+  assert (I3 : ipre m1 s0 s3) by (eapply ipre_pf; [exact I2|apply mdf_upd_tok|apply pf_upd_tok]).
+  assert (K3 : keys s3 = keys s1) by (subst s3; rewrite (pf_keys _ _ (pf_upd_tok _ _ _)); exact K2').
+  destruct pend.
+  { apply (Hadd s3); [exact I3|congruence|right; reflexivity|]. intros ck E Hi. inversion E; subst ck. discriminate Hi. }
+  set (own := match p with H2 => true | H1 => false end).
+  set (s4 := if own then upd_tok t (set_marker (Some (List.length (reqs s0)))) s3 else s3).
+  assert (I4 : ipre m1 s0 s4 /\ keys s4 = keys s1).
+  { subst s4. destruct own; [|auto]. split; [eapply ipre_pf; [exact I3|apply mdf_upd_tok|apply pf_upd_tok]|].
+    rewrite (pf_keys _ _ (pf_upd_tok _ _ _)). exact K3. }
+  destruct I4 as [I4 K4].
+  apply (Hadd s4); [exact I4|congruence|left; reflexivity|].
+  intros ck E Hi. inversion E; subst ck. exists k. split; [reflexivity|]. exact K2.
+Qed.
+
+
+(* ------------------------------------------------------------------ background tasks *)
+Definition obl_next (tid : nat) (rest : list nat) (s : state) (obl : list (nat * nat)) : list (nat * nat) :=
+  match nth tid (tasks s) None with
+  | Some (TDelayed rid t own) =>
+      match fst (connector_poll rid (ByTask tid) (set_runq rest s)) with CReady (inl c) => (c, t) :: obl | _ => obl end
+  | _ => obl
+  end.
+
+Lemma memp_head c t l : memp (c, t) ((c, t) :: l) = true.
+Proof. unfold memp. cbn. rewrite !Nat.eqb_refl. reflexivity. Qed.
+
+Lemma r3f_finish_task pre tid s : r3f pre s (finish_task tid s).
+Proof.
+  constructor; auto.
+  - intros r. apply rel_req_refl.
+  - intros n r t own H. cbn in H. rewrite nth_upd_none in H. destruct (Nat.eqb tid n); [discriminate|exact H].
+Qed.
+Lemma G3_finish_task obl pre m0 tid s : G3 obl pre m0 s -> G3 obl pre m0 (finish_task tid s).
+Proof. intros H. eapply G3_quiet; [exact H|apply r3f_finish_task|apply drops_same; reflexivity]. Qed.
+Lemma G3_set_runq obl pre m0 q s : G3 obl pre m0 s -> G3 obl pre m0 (set_runq q s).
+Proof. intros H. eapply G3_frame; [exact H| | | | | |]; reflexivity. Qed.
+
+Lemma G3_hand_back obl pre m0 t c s1 : G3 obl pre m0 s1 ->
+  G3 obl pre m0 (if is_open s1 c && negb (t =? 0) && g_pool cfg then pool_push (g_max_idle cfg) t c s1 else drop_conn c s1).
+Proof. intros H. destruct (_ && _); (eapply G3_mp; [exact H| |]); auto using mdf_pool_push, pf_pool_push, mdf_drop_conn, pf_drop_conn. Qed.
+
+Lemma G3_run_task obl m0 tid rest s : G3 obl 0 m0 s -> MD cfg None s ->
+  G3 (obl_next tid rest s obl) 0 m0 (run_task cfg tid (set_runq rest s)).
+Proof.
+  intros H HM. unfold obl_next, run_task. change (tasks (set_runq rest s)) with (tasks s).
+  pose proof (G3_set_runq obl 0 m0 rest s H) as H0.
+  destruct (nth tid (tasks s) None) as [[c t|rid t own]|] eqn:Et; [| |exact H0].
+  - (* hand-back *)
+    destruct (get_conn (set_runq rest s) c) as [cn|] eqn:Ec; [|apply G3_finish_task; exact H0].
+    assert (Hfin : forall b, G3 obl 0 m0 (let s1 := finish_task tid (emit (ERdy c b) (set_runq rest s)) in
+              if is_open s1 c && negb (t =? 0) && g_pool cfg then pool_push (g_max_idle cfg) t c s1 else drop_conn c s1)).
+    { intros b. cbv zeta. apply G3_hand_back. apply G3_finish_task. eapply G3_emit_rdy; eauto. }
+    destruct (negb (c_open cn)); [apply Hfin|]. destruct (c_share cn || c_ready cn); [apply Hfin|]. apply G3_upd_conn. exact H0.
+  - (* delayed connector *)
+    destruct (md_task _ _ _ HM tid rid t own Et) as (Gc & Gp & Gt).
+    destruct (r3_td _ _ _ (proj2 H0) tid rid t own Et) as (q & Hq & Hk).
+    set (oblx := match fst (connector_poll rid (ByTask tid) (set_runq rest s)) with CReady (inl c) => (c, t) :: obl | _ => obl end).
+    assert (H1 : G3 oblx 0 m0 (snd (connector_poll rid (ByTask tid) (set_runq rest s)))).
+    { apply G3_connector.
+      - subst oblx. destruct (fst (connector_poll rid (ByTask tid) (set_runq rest s))) as [|[c|e]]; try exact H0. apply G3_mono. exact H0.
+      - intros d a Hd Hs. subst oblx. unfold connector_poll. rewrite Hd, Hs. cbn [fst].
+        cbn [cT]. unfold RV in Hq. rewrite nth_error_map' in Hq. destruct (nth_error (m_reqs (cur m0 (set_runq rest s))) rid) as [y|]; [|discriminate].
+        cbn in Hq. inversion Hq; subst q. cbn [q_key rv3] in Hk. destruct (ri_aband y); [|reflexivity].
+        rewrite Gc, Hk. cbn [andb]. apply memp_head. }
+    destruct (connector_poll rid (ByTask tid) (set_runq rest s)) as [r s1]. cbn [fst snd] in *.
+    destruct r as [|[c|e]]; [exact H1| |].
+    + pose proof (mdf_register cfg t c s1) as F2. pose proof (pf_register cfg t c s1) as P2.
+      destruct (register cfg t c s1) as [p s2]. cbn [snd] in F2, P2.
+      eapply G3_mp; [|apply mdf_pooled_drop|apply pf_pooled_drop]. apply G3_finish_task.
+      assert (H2 : G3 oblx 0 m0 s2) by (eapply G3_mp; eauto).
+      destruct (_ && _); [eapply G3_mp; [exact H2|apply mdf_pool_cancel|apply pf_pool_cancel]|exact H2].
+    + apply G3_finish_task. destruct (_ && _); [eapply G3_mp; [exact H1|apply mdf_pool_cancel|apply pf_pool_cancel]|exact H1].
+Qed.
+
+
+Definition GB (live0 : nat -> bool) (obl : list (nat * nat)) (m0 : mst) (s : state) : Prop :=
+  G3 obl 0 m0 s /\ OB (g_max_idle cfg) (g_pool cfg) live0 obl s /\ MD cfg None s.
+
+Lemma GB_run_task live0 obl m0 tid rest s : runq s = tid :: rest -> GB live0 obl m0 s ->
+  GB live0 (obl_next tid rest s obl) m0 (run_task cfg tid (set_runq rest s)).
+Proof.
+  intros Hq (H1 & H2 & H3). split; [apply G3_run_task; assumption|]. split; [|apply MD_run_task; assumption].
+  unfold obl_next. destruct (nth tid (tasks s) None) as [[c t|rid t own]|] eqn:Et.
+  - eapply OB_run_ready; eauto.
+  - destruct (md_task _ _ _ H3 tid rid t own Et) as (Gc & Gp & Gt). apply (OB_run_delayed cfg live0 obl tid rest rid t own s Hq Et Gp); [lia|apply (md_tt _ _ _ H3 tid rid t own Et)|exact H2].
+  - unfold run_task. change (tasks (set_runq rest s)) with (tasks s). rewrite Et.
+    eapply OB_obf; [apply (obf_set_runq tid rest s Hq)|exact H2|]. intros p _ _ _ (_ & Ht & _). rewrite Et in Ht. discriminate.
+Qed.
+
+Lemma GB_bg_loop live0 m0 : forall fuel s obl, GB live0 obl m0 s -> exists obl', GB live0 obl' m0 (bg_loop cfg fuel s).
+Proof.
+  induction fuel as [|f IH]; intros s obl H; cbn [bg_loop]; [eauto|].
+  destruct (runq s) as [|tid rest] eqn:Hq; [eauto|]. eapply IH. apply GB_run_task; eauto.
+Qed.
+
+(* after the run nothing is pending any more *)
+Lemma Fate_final live0 s p : runq s = [] -> Fate (g_max_idle cfg) (g_pool cfg) live0 s p ->
+  mem (fst p) (idl s (snd p)) || Nat.leb (g_max_idle cfg) (List.length (idl s (snd p))) || live0 (snd p) = true.
+Proof.
+  intros Hq (_ & _ & [A|[A|[A|[_ [tid (A & _)]]]]]).
+  - apply orb_true_iff. left. apply orb_true_iff. left. unfold mem. apply existsb_exists. exists (fst p). split; [exact A|apply Nat.eqb_refl].
+  - apply orb_true_iff. left. apply orb_true_iff. right. apply Nat.leb_le. unfold idl. rewrite map_length. exact A.
+  - apply orb_true_iff. right. exact A.
+  - rewrite Hq in A. destruct A.
+Qed.
+
+
+(* ------------------------------------------------------------------ the remaining operations *)
+Lemma G3_wake_task obl pre m0 t s : G3 obl pre m0 s -> G3 obl pre m0 (wake_task t s).
+Proof. intros H. unfold wake_task. destruct (existsb _ _); [exact H|]. eapply G3_frame; [exact H| | | | | |]; reflexivity. Qed.
+Lemma G3_wake_tasks obl pre m0 l : forall s, G3 obl pre m0 s -> G3 obl pre m0 (wake_tasks l s).
+Proof. induction l as [|t l IH]; intros s H; cbn [wake_tasks]; [exact H|]. apply IH, G3_wake_task, H. Qed.
+Lemma G3_drain obl pre m0 c s : G3 obl pre m0 s -> G3 obl pre m0 (drain_conn_waiters c s).
+Proof. intros H. unfold drain_conn_waiters. destruct (get_conn s c); [|exact H]. apply G3_wake_tasks, G3_upd_conn, H. Qed.
+
+Definition view_same (m m' : mst) : Prop := RV m' = RV m /\ NC m' = NC m /\ m_keys m' = m_keys m.
+
+Lemma track_op_view m o ob :
+  match o with Issue _ _ | Cancel _ | DialDone _ _ => False | _ => True end -> view_same m (track_op cfg m o ob).
+Proof.
+  intros Ho. destruct o; try contradiction; cbn [track_op]; try (repeat split; reflexivity).
+  - destruct (holder_conn m r); [|repeat split; reflexivity]. repeat split; try reflexivity; apply NC_ci_upd.
+  - repeat split; try reflexivity; apply NC_ci_upd.
+Qed.
+
+Lemma G3_op_other m o s ob : R3 0 m s -> MD cfg None s -> out s = [] ->
+  match o with Issue _ _ | Cancel _ | DialDone _ _ | Bg => False | _ => True end ->
+  G3 [] 0 (track_op cfg m o ob) (match o with
+                                 | Poll r => do_poll cfg r s | Finish r => do_finish r s | Upgrade r => do_upgrade r s
+                                 | ConnReady c => do_conn_ready c s | ConnClose c => do_conn_close c s
+                                 | Tick dt => set_now (now s + dt)%N s | _ => s end).
+Proof.
+  intros H HM Ho Hk.
+  assert (Hv : view_same m (track_op cfg m o ob)) by (apply track_op_view; destruct o; auto).
+  destruct Hv as (V1 & V2 & V3).
+  assert (H0 : G3 [] 0 (track_op cfg m o ob) s) by (apply G3_start; [exact Ho|]; eapply R3_view; eauto).
+  destruct o; try contradiction.
+  - apply G3_do_poll; assumption.
+  - unfold do_finish. destruct (get_req s r) as [[|ck|p fin pl| |]|]; try exact H0.
+    assert (H1 : G3 [] 0 (track_op cfg m (Finish r) ob) (set_req r (RHolding p true false) s)) by (apply G3_set_req; [exact H0|discriminate]).
+    destruct pl; [eapply G3_frame; [exact H1| | | | | |]; reflexivity|exact H1].
+  - unfold do_upgrade. destruct (get_req s r) as [[|ck|p fin pl| |]|]; try exact H0. apply G3_drain, G3_upd_conn, H0.
+  - unfold do_conn_ready. destruct (get_conn s c); [|exact H0]. apply G3_drain, G3_upd_conn, H0.
+  - unfold do_conn_close. destruct (get_conn s c); [|exact H0]. apply G3_drain, G3_upd_conn, H0.
+  - eapply G3_frame; [exact H0| | | | | |]; reflexivity.
+Qed.
+
+
+(* ------------------------------------------------------------------ one operation *)
+Definition Bnd3 (m : mst) (s : state) : Prop :=
+  R3 0 m s /\ MD cfg None s /\ TD s /\ o_snap (m_prev m) = snapshot s.
+Definition live0_of (m : mst) (t : nat) : bool := Nat.ltb 0 (live_of (o_snap (m_prev m)) t).
+
+Lemma lv_live s t : lv s t = true -> Nat.ltb 0 (live_of (snapshot s) t) = true.
+Proof.
+  rewrite live_of_snapshot. unfold lv, wtg, count_live. generalize (p_waiting (get_tok s t)). intros l H.
+  apply Nat.ltb_lt. induction l as [|w l IH]; cbn in *; [discriminate|].
+  destruct (rx_live s (fst w)); cbn; [lia|]. apply IH. exact H.
+Qed.
+
+Lemma snaps_from_reqs s s' : reqs s' = reqs s -> forall l t, snaps_from s' t l = snaps_from s t l.
+Proof.
+  intros E. induction l as [|p l IH]; intros t; cbn [snaps_from]; [reflexivity|]. rewrite IH.
+  assert (Hc : count_live s' (p_waiting p) = count_live s (p_waiting p)).
+  { unfold count_live. f_equal. apply filter_ext. intros w. unfold rx_live, get_req. rewrite E. reflexivity. }
+  rewrite Hc. reflexivity.
+Qed.
+Lemma snapshot_set_out v s : snapshot (set_out v s) = snapshot s.
+Proof. unfold snapshot. apply snaps_from_reqs. reflexivity. Qed.
+
+Lemma R3_set_out m v s : R3 0 m s -> R3 0 m (set_out v s).
+Proof. apply R3_out; reflexivity. Qed.
+
+Lemma step_G3 m s o ob : Bnd3 m s ->
+  exists obl, G3 obl 0 (track_op cfg m o ob) (step cfg s o)
+    /\ forall p, In p obl ->
+         mem (fst p) (idl (step cfg s o) (snd p)) || Nat.leb (g_max_idle cfg) (List.length (idl (step cfg s o) (snd p)))
+         || live0_of m (snd p) = true.
+Proof.
+  intros (HR & HM & HT & Hs). unfold step.
+  assert (HR0 : R3 0 m (set_out [] s)) by (apply R3_set_out; exact HR).
+  assert (HM0 : MD cfg None (set_out [] s)) by (apply (MD_mdf cfg None s); [apply mdf_frame; reflexivity|exact HM]).
+  assert (Hnone : forall s', G3 [] 0 (track_op cfg m o ob) s' -> exists obl, G3 obl 0 (track_op cfg m o ob) s' /\ forall p, In p obl ->
+      mem (fst p) (idl s' (snd p)) || Nat.leb (g_max_idle cfg) (List.length (idl s' (snd p))) || live0_of m (snd p) = true)
+    by (intros s' H; exists []; split; [exact H|intros p []]).
+  destruct o.
+  - apply Hnone. apply G3_op_issue; auto.
+  - apply Hnone. apply (G3_op_other m (Poll r) (set_out [] s) ob); auto.
+  - apply Hnone. apply G3_op_cancel; auto.
+  - apply Hnone. apply (G3_op_other m (Finish r) (set_out [] s) ob); auto.
+  - apply Hnone. apply (G3_op_other m (Upgrade r) (set_out [] s) ob); auto.
+  - apply Hnone. apply G3_op_dial_done; auto.
+  - apply Hnone. apply (G3_op_other m (ConnReady c) (set_out [] s) ob); auto.
+  - apply Hnone. apply (G3_op_other m (ConnClose c) (set_out [] s) ob); auto.
+  - (* Bg *)
+    assert (HB : GB (live0_of m) [] (track_op cfg m Bg ob) (set_out [] s)).
+    { split; [apply G3_start; [reflexivity|exact HR0]|]. split; [|exact HM0]. split; [intros p []|].
+      intros t Hl. unfold live0_of. rewrite Hs, <- (snapshot_set_out [] s). exact (lv_live (set_out [] s) t Hl). }
+    destruct (GB_bg_loop (live0_of m) (track_op cfg m Bg ob) (2 * List.length (runq (set_out [] s)) + 1) (set_out [] s) [] HB) as (obl & H1 & H2 & H3).
+    exists obl. split; [exact H1|]. intros p Hp. apply Fate_final; [apply do_bg_drains|apply (proj1 H2 p Hp)].
+  - apply Hnone. apply (G3_op_other m (Tick dt) (set_out [] s) ob); auto.
+Qed.
+
+
+(* ------------------------------------------------------------------ the checks *)
+Lemma evs_ok_impl_inv (P : mst -> Prop) (f g : mst -> ev -> bool) :
+  (forall m e, P m -> P (track_ev m e)) -> (forall m e, P m -> f m e = true -> g m e = true) ->
+  forall l m, P m -> evs_ok f m l = true -> evs_ok g m l = true.
+Proof.
+  intros HP Hfg. induction l as [|a l IH]; intros m Hm; cbn [evs_ok]; [reflexivity|].
+  rewrite !andb_true_iff. intros [H1 H2]. split; [apply Hfg; assumption|apply IH; [apply HP; exact Hm|exact H2]].
+Qed.
+
+Lemma memp_In p l : memp p l = true -> In p l.
+Proof.
+  unfold memp. intros H. apply existsb_exists in H. destruct H as (q & Hin & Hq). apply andb_true_iff in Hq. destruct Hq as [A B].
+  apply Nat.eqb_eq in A, B. destruct p, q; cbn in *; subst. exact Hin.
+Qed.
+
+Lemma cT_A1 obl s m e : TD s -> cT obl m e = true -> cA1 cfg (observe s) m e = true.
+Proof.
+  intros HT. destruct e as [r k|c sh r|r c a b d h|r|r x|r c|c|c okb]; cbn [cT cA1]; auto. destruct okb; [|reflexivity].
+  destruct (nth_error (m_conns m) c) as [x|]; [|discriminate]. intros _.
+  destruct (g_pool cfg && negb (ci_share x) && match ci_closed x with None => true | _ => false end); [|reflexivity].
+  cbn [observe o_snap]. rewrite TD_a1 by exact HT. reflexivity.
+Qed.
+
+Lemma cT_B obl s mp m e :
+  (forall p, In p obl -> mem (fst p) (idl s (snd p)) || Nat.leb (g_max_idle cfg) (List.length (idl s (snd p))) || live0_of mp (snd p) = true) ->
+  m_prev m = m_prev mp -> cT obl m e = true -> cB cfg (observe s) m e = true.
+Proof.
+  intros Hf Hp. destruct e as [r k|c sh r|r c a b d h|r|r x|r c|c|c okb]; cbn [cT cB]; auto.
+  destruct (nth_error (m_reqs m) r) as [y|]; [|discriminate]. destruct (ri_aband y); [|reflexivity].
+  rewrite !andb_true_iff. intros [Hc Hm]. split; [exact Hc|]. apply memp_In in Hm. specialize (Hf _ Hm). cbn [fst snd] in Hf.
+  cbn [observe o_snap]. rewrite idle_of_snapshot. unfold live0_of in Hf. rewrite Hp. exact Hf.
+Qed.
+
+Lemma step_A1 m s o : Bnd3 m s -> chk_A1 cfg m o (observe (step cfg s o)) = true.
+Proof.
+  intros HB. destruct (step_G3 m s o (observe (step cfg s o)) HB) as (obl & [He _] & _).
+  unfold chk_A1. cbn [observe o_events]. eapply evs_ok_impl; [|exact He]. intros m' e. apply cT_A1.
+  apply TD_step. apply HB.
+Qed.
+
+Lemma step_B m s o : Bnd3 m s -> chk_B cfg m o (observe (step cfg s o)) = true.
+Proof.
+  intros HB. destruct (step_G3 m s o (observe (step cfg s o)) HB) as (obl & [He _] & Hf).
+  unfold chk_B. cbn [observe o_events].
+  apply (evs_ok_impl_inv (fun m' => m_prev m' = m_prev m) (cT obl)); [| | |exact He].
+  - intros m' e E. rewrite mprev_track_ev. exact E.
+  - intros m' e E. apply (cT_B obl (step cfg s o) m); assumption.
+  - destruct o; cbn [track_op]; try reflexivity.
+    + destruct (nth_error (m_reqs m) r) as [x|]; [|reflexivity]. destruct (ri_stat x); reflexivity.
+    + destruct (holder_conn m r); reflexivity.
+Qed.
+
+
+Lemma forallb_indexed {A} (f : nat * A -> bool) : forall l k,
+  (forall i x, nth_error l i = Some x -> f (k + i, x) = true) -> forallb f (combine (seq k (List.length l)) l) = true.
+Proof.
+  induction l as [|a l IH]; intros k H; cbn [List.length seq combine forallb]; [reflexivity|].
+  rewrite (IH (S k)); [|intros i x Hx; replace (S k + i) with (k + S i) by lia; apply H; exact Hx].
+  specialize (H 0 a eq_refl). rewrite Nat.add_0_r in H. rewrite H. reflexivity.
+Qed.
+
+Lemma step_bg m s o : Bnd3 m s -> chk_bg_C14 cfg m o (observe (step cfg s o)) = true.
+Proof.
+  intros (HR & HM & HT & Hs). destruct o; try reflexivity. cbn [chk_bg_C14].
+  apply (forallb_indexed _ (m_reqs m) 0). intros i x Hx. cbn [Nat.add].
+  destruct (ri_aband x && g_cont cfg && g_pool cfg && match ri_dial x, ri_resolved x with DsFlying, Some true => true | _, _ => false end) eqn:Ec; [|reflexivity].
+  apply andb_true_iff in Ec. destruct Ec as [Ec E4]. apply andb_true_iff in Ec. destruct Ec as [Ec E3].
+  apply andb_true_iff in Ec. destruct Ec as [E1 E2].
+  assert (Hq : nth_error (RV m) i = Some (rv3 x)) by (unfold RV; rewrite nth_error_map', Hx; reflexivity).
+  assert (Hn : ~ isck s i) by (apply (r3_ab _ _ _ HR i (rv3 x) Hq E1)).
+  assert (Hi : i < List.length (dials s)).
+  { pose proof (r3_nr _ _ _ HR) as Hl. apply nth_error_lt in Hq. lia. }
+  destruct (nth_error_ex (dials s) i Hi) as [d Hd].
+  assert (Hc : contp cfg = true) by (unfold contp; rewrite E2, E3; reflexivity).
+  destruct (r3_di _ _ _ HR Hc i (rv3 x) d Hq Hd) as (_ & _ & _ & D4). cbn [rv3 q_dl q_rs] in D4.
+  destruct (ri_dial x) eqn:Ed; try discriminate. destruct (ri_resolved x) as [[|]|] eqn:Er; try discriminate.
+  destruct (D4 eq_refl eq_refl) as [a Ha].
+  assert (HM0 : MD cfg None (set_out [] s)) by (apply (MD_mdf cfg None s); [apply mdf_frame; reflexivity|exact HM]).
+  destruct (bg_completes cfg (set_out [] s) i d a HM0 Hn Hd Ha) as (c & sh & Hin).
+  cbn [observe o_events]. apply existsb_exists. exists (ENew c sh i). split; [apply -> in_rev; exact Hin|apply Nat.eqb_refl].
+Qed.
+
+Lemma view_track_offer ob : forall l m, view_same m (fold_left (track_offer ob) l m).
+Proof.
+  induction l as [|e l IH]; intros m; cbn [fold_left]; [repeat split|].
+  destruct (IH (track_offer ob m e)) as (A & B & C). 
+  assert (Hv : view_same m (track_offer ob m e)).
+  { destruct e; try (repeat split; reflexivity). cbn [track_offer]. destruct ok; [|repeat split].
+    destruct (nth_error (m_conns m) c); [|repeat split]. repeat split; try reflexivity. apply NC_ci_upd. }
+  destruct Hv as (A' & B' & C'). repeat split; congruence.
+Qed.
+
+Lemma view_idle_stamp prev : forall sn m, view_same m (track_idle_stamp prev m sn).
+Proof.
+  intros sn. unfold track_idle_stamp. generalize (sn_idle sn). induction l as [|c l IH]; intros m; cbn [fold_left]; [repeat split|].
+  destruct (IH (if mem c (idle_of prev (sn_token sn)) then m else ci_upd (set_ci_idle_time (m_time m)) c m)) as (A & B & C).
+  destruct (mem c (idle_of prev (sn_token sn))); [repeat split; assumption|].
+  repeat split; [rewrite A; reflexivity|rewrite B; apply NC_ci_upd|rewrite C; reflexivity].
+Qed.
+Lemma view_idle_stamps prev : forall l m, view_same m (fold_left (track_idle_stamp prev) l m).
+Proof.
+  induction l as [|sn l IH]; intros m; cbn [fold_left]; [repeat split|].
+  destruct (IH (track_idle_stamp prev m sn)) as (A & B & C). destruct (view_idle_stamp prev sn m) as (A' & B' & C').
+  repeat split; congruence.
+Qed.
+
+Lemma step_Bnd3 m s o : Bnd3 m s -> Bnd3 (track cfg m o (observe (step cfg s o))) (step cfg s o).
+Proof.
+  intros HB. destruct (step_G3 m s o (observe (step cfg s o)) HB) as (obl & [_ HR] & _). destruct HB as (HR0 & HM & HT & Hs).
+  split; [|split; [apply MD_step; exact HM|split; [apply TD_step; exact HT|reflexivity]]].
+  unfold track. cbn [observe o_events]. fold (cur (track_op cfg m o (observe (step cfg s o))) (step cfg s o)).
+  set (m1 := cur (track_op cfg m o (observe (step cfg s o))) (step cfg s o)) in *.
+  destruct (view_track_offer (observe (step cfg s o)) (rev (out (step cfg s o))) m1) as (A & B & C).
+  match goal with |- context [fold_left (track_idle_stamp ?pv) ?l ?mm] =>
+    destruct (view_idle_stamps pv l mm) as (A2 & B2 & C2); set (m2 := fold_left (track_idle_stamp pv) l mm) in * end.
+  eapply R3_view; [| | |exact HR]; [change (RV m2 = RV m1)|change (NC m2 = NC m1)|change (m_keys m2 = m_keys m1)]; congruence.
 Qed.
 
 End BTrk.
